@@ -35,6 +35,23 @@ def configure(cfg, r, tier):
     cfg["json_attrs"] = True
     for k in ("H", "DH", "SC"):
         cfg["ops"][k]["set_net_attr"] = 2.0
+        cfg["ops"][k]["freeze"] = 0.4  # frozen networks are converted like any other
+    cross_profile(cfg, r, 0.15)
+
+
+def cross_profile(cfg, r, p):
+    """nodes of one label type and edge IDs of the other, with overlapping string forms (the
+    casts nodetype / edgetype then differ)"""
+    if r.random() < p:
+        cfg["profile"] = r.choice(["cross_is", "cross_si"])
+        if cfg["profile"] == "cross_is":
+            # every edge gets an explicit (string) ID, otherwise the IDs are not of one type
+            cfg["explicit_idx_rate"] = 1.0
+            cfg["bulk_fmts"] = [2, 4, 5]
+            for k in ("H", "DH", "SC"):
+                for op in ("add_weighted_edges_from", "add_weighted_simplices_from", "alias_add_weighted_edges_from",
+                           "dup_edge", "near_dup_edge", "add_node_to_edge"):
+                    cfg["ops"][k].pop(op, None)
 
 
 def next_record(sim):
@@ -245,8 +262,9 @@ def do_convert(sim, rec):
             else:
                 return None
         else:
-            ntc = int if nt == "int" else None
-            etc = int if et == "int" else None
+            # a string cast may be left out or passed explicitly
+            ntc = int if nt == "int" else (str if r.random() < 0.5 else None)
+            etc = int if et == "int" else (str if r.random() < 0.5 else None)
             call = lambda: xgi.from_hypergraph_dict(xgi.to_hypergraph_dict(A), nodetype=ntc, edgetype=etc)
             expect = M.HModel()
             for n in m.nodes:
